@@ -89,6 +89,17 @@ func (l RandomLayout) Gap(b Boundary) GapText {
 		g.Blanks = b.Need
 		if l.Conts {
 			g.Cont = true
+			// blanks in front of the line continuation, behind it, on both sides or nowhere
+			switch rapid.IntRange(0, 5).Draw(l.T, "cont_blanks") {
+			case 0:
+				g.Blanks = " "
+			case 1:
+				g.Blanks, g.After = "", " "
+			case 2:
+				g.Blanks, g.After = " ", "\t"
+			case 3:
+				g.Blanks = "\t"
+			}
 		}
 	case 8:
 		g.Blanks = b.Need
